@@ -744,6 +744,13 @@ func (b *builder) branch(bs *BranchSpec) *compose.GraphBranch {
 	for _, t := range bs.Targets {
 		ends[t] = true
 	}
+	// a fault configured under the branch id makes the condition itself fail
+	condErr := func(ctx context.Context) error {
+		if ctl := CtlFrom(ctx); ctl != nil && ctl.Faults[bs.ID] != NoFault {
+			return fmt.Errorf("branch %s wraps: %w", bs.ID, ErrSentinel)
+		}
+		return nil
+	}
 	decide := func(ctx context.Context, in any) []string {
 		ctl := CtlFrom(ctx)
 		var chosen []string
@@ -776,6 +783,9 @@ func (b *builder) branch(bs *BranchSpec) *compose.GraphBranch {
 	case bs.Stream && bs.Multi:
 		return compose.NewStreamGraphMultiBranch(func(ctx context.Context, sr *schema.StreamReader[V]) (map[string]bool, error) {
 			in, err := readIn(sr)
+			if err == nil {
+				err = condErr(ctx)
+			}
 			if err != nil {
 				return nil, err
 			}
@@ -788,6 +798,9 @@ func (b *builder) branch(bs *BranchSpec) *compose.GraphBranch {
 	case bs.Stream:
 		return compose.NewStreamGraphBranch(func(ctx context.Context, sr *schema.StreamReader[V]) (string, error) {
 			in, err := readIn(sr)
+			if err == nil {
+				err = condErr(ctx)
+			}
 			if err != nil {
 				return "", err
 			}
@@ -795,6 +808,9 @@ func (b *builder) branch(bs *BranchSpec) *compose.GraphBranch {
 		}, ends)
 	case bs.Multi:
 		return compose.NewGraphMultiBranch(func(ctx context.Context, in V) (map[string]bool, error) {
+			if err := condErr(ctx); err != nil {
+				return nil, err
+			}
 			m := map[string]bool{}
 			var x any = in
 			if bs.Prefix {
@@ -807,6 +823,9 @@ func (b *builder) branch(bs *BranchSpec) *compose.GraphBranch {
 		}, ends)
 	default:
 		return compose.NewGraphBranch(func(ctx context.Context, in V) (string, error) {
+			if err := condErr(ctx); err != nil {
+				return "", err
+			}
 			var x any = in
 			if bs.Prefix {
 				x = nil
